@@ -93,6 +93,7 @@ class Gen:
             (3, self.g_leaf), (4, self.g_pipe), (3, self.g_comma), (5, self.g_bind), (3, self.g_pattern),
             (5, self.g_def), (4, self.g_call), (2, self.g_if), (2, self.g_try), (2, self.g_label),
             (3, self.g_fold), (1, self.g_alt), (2, self.g_limit), (1, self.g_paren_chain),
+            (3, self.g_nest), (3, self.g_deep_pattern),
         ]
         if ty == "n":
             opts += [(5, self.g_math), (2, self.g_neg), (2, self.g_index), (1, self.g_length), (1, self.g_add)]
@@ -408,6 +409,125 @@ class Gen:
         r = ("comma", self.term(ctx, "n", b), self.term(ctx, "n", 1))
         return ("math", self.rng.choice(["-", "-", "*", "+"]), l, r)
 
+    # ---------------------------------------------------------------------------------
+    # nests of definitions that call themselves, their parents and their siblings, in and out
+    # of tail position (every call increments the counter in `.`, every body is guarded by
+    # `. >= L`, so all nests terminate)
+    def g_nest(self, ctx, ty, size):
+        r = self.rng
+        L = r.choice([3, 4, 5])
+        param = r.choice([None, None, "$v", "p"])
+        params = (param,) if param else ()
+
+        def call(name):
+            if not param:
+                return ("call", name, ())
+            if param == "$v":
+                return ("call", name, (r.choice([A.var("$v"), ("math", "+", A.var("$v"), A.num(1))]),))
+            return ("call", name, (A.call("p"),))
+
+        def item(callables):
+            name = r.choice(callables)
+            step = A.pipe(("math", "+", ID_, A.num(r.choice(["1", "1", "2"]))), call(name))
+            w = r.randrange(10)
+            if w < 4:
+                return step                                         # tail position
+            if w == 4:
+                return A.pipe(step, ("neg", ID_))
+            if w == 5:
+                return ("math", "+", A.num(1000), step)
+            if w == 6:
+                return A.bind(step, ("pvar", "$q"), ("math", "+", A.var("$q"), A.num(1)))
+            if w == 7:
+                return ("call", "first", (step,))
+            if w == 8:
+                return ("try", step, A.num(0))
+            return ("label", "$o", ("comma", step, ("break", "$o")))
+
+        def body(callables):
+            base = r.choice([ID_, ("math", "*", ID_, A.num(10))] + ([A.var("$v")] if param == "$v" else []) +
+                            ([A.call("p")] if param == "p" else []))
+            k = r.randrange(4)
+            if k == 0:
+                alt = item(callables)
+            elif k == 1:
+                alt = ("comma", item(callables), item(callables))
+            elif k == 2:
+                alt = ("if", ((("cmp", "==", ("math", "%", ID_, A.num(2)), A.num(0)), item(callables)),), item(callables))
+            else:
+                alt = ("if", ((("cmp", "<", ID_, A.num(2)), item(callables)), (("cmp", "<", ID_, A.num(3)), item(callables))),
+                       ("comma", item(callables), A.num(7)))
+            return ("if", ((("cmp", ">=", ID_, A.num(L)), base),), alt)
+
+        shape = r.randrange(3)
+        if shape == 0:
+            inner = (("ng", params, body(["ng", "nf"])),)
+            fbody = ("def", inner, body(["nf", "ng", "ng"]))
+        elif shape == 1:
+            inner = (("ng", params, body(["ng", "nf"])), ("nh", params, body(["nh", "ng", "nf"])))
+            fbody = ("def", inner, body(["nf", "ng", "nh"]))
+        else:
+            innermost = (("nh", params, body(["nh", "ng", "nf"])),)
+            inner = (("ng", params, ("def", innermost, body(["ng", "nh", "nf"]))),)
+            fbody = ("def", inner, body(["nf", "ng"]))
+        start = r.choice([A.num(0), ("comma", A.num(0), A.num(1)), A.num(2)])
+        if param == "$v":
+            first_call = ("call", "nf", (A.num(r.choice(["5", "6"])),))
+        elif param == "p":
+            first_call = ("call", "nf", (r.choice([A.num(9), ("math", "+", ID_, A.num(100))]),))
+        else:
+            first_call = A.call("nf")
+        t = ("def", (("nf", params, fbody),), A.pipe(start, first_call))
+        if ty == "n":
+            return t
+        return A.pipe(("call", "limit", (A.num(6), t)), self.term(ctx.with_(tin="n"), ty, 2))
+
+    # destructuring with nested patterns whose computed keys refer to outer variables, filter
+    # arguments and earlier definitions, after other pattern variables have been bound
+    def g_deep_pattern(self, ctx, ty, size):
+        r = self.rng
+        a, b = self.split(size)
+        kname = r.choice(["$k", "$x", "$key"])
+        inner_e = ("obj", ((A.string("b"), A.num(3)),))
+        inner_c = ("obj", ((A.string("b"), A.num(2)), (A.string("e"), inner_e)))
+        val = ("obj", ((A.string("a"), A.num(1)), (A.string("c"), inner_c), (A.string("b"), A.num(4))))
+        keyexpr = r.choice([A.var(kname), ("comma", A.var(kname), A.string("e")), ("str", None, (("t", A.var(kname)),)),
+                            A.pipe(A.var(kname), ID_)])
+        x, y, z = "$x1", "$y1", "$z1"
+        shape = r.randrange(4)
+        if shape == 0:
+            pat = ("pobj", ((A.string("a"), ("pvar", x)), (A.string("c"), ("pobj", ((keyexpr, ("pvar", y)),)))))
+            vars_ = [(x, "n"), (y, "*")]
+        elif shape == 1:
+            pat = ("pobj", ((A.string("a"), ("pvar", x)), (A.string("b"), ("pvar", z)), (A.string("c"), ("pobj", ((A.string("e"), ("pobj", ((keyexpr, ("pvar", y)),))),)))))
+            vars_ = [(x, "n"), (z, "n"), (y, "*")]
+        elif shape == 2:
+            pat = ("pobj", ((A.string("c"), ("pobj", ((keyexpr, ("pvar", y)),))), (A.string("a"), ("pvar", x))))
+            vars_ = [(y, "*"), (x, "n")]
+        else:
+            val = ("arr", ("comma", A.num(1), val))
+            pat = ("parr", (("pvar", x), ("pobj", ((A.string("c"), ("pobj", ((keyexpr, ("pvar", y)),))),))))
+            vars_ = [(x, "n"), (y, "*")]
+        body = ("arr", comma_of([A.var(v) for v, _ in vars_]))
+        how = r.randrange(4)
+        inner_ctx = ctx.with_(vars=ctx.vars + ((kname, "s"),) + tuple(vars_))
+        extra = self.term(inner_ctx.with_(tin=ctx.tin), "n", b) if r.random() < 0.5 else A.num(0)
+        body = ("arr", comma_of([A.var(v) for v, _ in vars_] + [extra]))
+        if how == 0:
+            t = A.bind(val, pat, body)
+        elif how == 1:
+            t = ("fold", "reduce", val, pat, (("arr", None), ("math", "+", ID_, body)))
+        elif how == 2:
+            t = ("fold", "foreach", ("comma", val, val), pat, (A.num(0), ("math", "+", ID_, A.num(1)), ("arr", ("comma", ID_, body))))
+        else:
+            # the key comes from a filter argument of an enclosing definition
+            pat2 = replace_term(pat, keyexpr, A.call("kf"))
+            t = ("def", (("dp", ("kf",), A.bind(val, pat2, body)),), ("call", "dp", (keyexpr,)))
+        t = A.bind(A.string("b"), ("pvar", kname), t)
+        if ty == "a":
+            return t
+        return A.pipe(t, self.term(ctx.with_(tin="a"), ty, 2))
+
     def g_math(self, ctx, ty, size):
         a, b = self.split(size)
         op = self.rng.choice(["+", "-", "*", "+", "-", "%"])
@@ -563,6 +683,24 @@ class Gen:
         if self.rng.random() < 0.2:
             return A.pipe(self.term(ctx, "b", size), A.call("not"))
         return (self.rng.choice(["and", "or"]), self.term(ctx, "b", a), self.term(ctx, "b", b))
+
+
+ID_ = A.ID
+
+
+def comma_of(items):
+    t = items[-1]
+    for x in reversed(items[:-1]):
+        t = ("comma", x, t)
+    return t
+
+
+def replace_term(t, old, new):
+    if t == old:
+        return new
+    if isinstance(t, tuple):
+        return tuple(replace_term(x, old, new) for x in t)
+    return t
 
 
 def features(t):
